@@ -1,4 +1,136 @@
-import Model.Pool
+import Proofs.Pool
+/-
+C11 — A pooled connection has one holder; dead or expired ones are never reissued.
+
+`Model.Pool` is the state machine of chpool handles over the resource pool: every history of
+acquire / release (once or repeatedly) / transport failure / passing time / health check /
+close, for every configuration.  `fixed` is the code as repaired (`Release` forgets its
+resource); `old` keeps the stale pointer.
+-/
 open Model Model.Pool
-/-- placeholder replaced below by the full development -/
-theorem C11_placeholder : True := trivial
+
+/-- the configuration under which the theorems are stated: any limits, `Release` clears the handle -/
+def C11.fixed (max maxLife maxIdle : Nat) : Cfg := { max := max, maxLife := maxLife, maxIdle := maxIdle }
+
+/-- **One holder, bounded size** — after every history: two handles never point at the same
+connection, every handle points at a live connection, the number of live connections is at most
+the configured maximum, and no release ever reached the underlying pool in a forbidden state. -/
+theorem C11_single_holder_and_bound (max maxLife maxIdle : Nat) (ops : List Op) :
+    let s := run (C11.fixed max maxLife maxIdle) {} ops
+    (∀ p ∈ s.handles, ∀ q ∈ s.handles, p.2 = q.2 → p = q) ∧
+    (∀ p ∈ s.handles, ∃ r ∈ s.live, r.id = p.2 ∧ r.held = true) ∧
+    s.live.length ≤ max ∧ s.corrupt = false := by
+  have h := inv_run (C11.fixed max maxLife maxIdle) rfl ops {} (inv_init _)
+  exact ⟨h.single, h.ptr, h.bound, h.ok⟩
+
+/-- **Dead or expired connections are destroyed at release** … -/
+theorem C11_release_destroys_dead (cfg : Cfg) (hc : cfg.clearOnRelease = true) (s : St) (h : Inv cfg s)
+    (hd id : Nat) (r : Res) (hl : lookup s.handles hd = some id) (hr : r ∈ s.live) (hid : r.id = id)
+    (hdead : r.clientClosed = true ∨ s.now - r.born > cfg.maxLife) :
+    id ∈ (step cfg s (.release hd)).destroyed ∧ ∀ x ∈ (step cfg s (.release hd)).live, x.id ≠ id := by
+  have hmem := lookup_some hl
+  obtain ⟨r', hr', hrid', hheld⟩ := h.ptr _ hmem
+  have : r' = r := h.ids r' hr' r hr (by rw [hrid', hid])
+  subst this
+  have hcond : (r'.clientClosed || expired cfg s.now r' || s.closed) = true := by
+    rcases hdead with h1 | h1
+    · simp [h1]
+    · simp [expired, h1]
+  simp only [step, hl, find_live h hr hid, hheld, hcond, hc, Bool.not_true, Bool.false_eq_true, ↓reduceIte]
+  refine ⟨by simp [destroy], ?_⟩
+  intro x hx
+  simp [destroy] at hx
+  exact hx.2
+
+/-- … **and never handed out again**: every connection ever destroyed is different from every
+live connection and from every connection created later, after any continuation of the history. -/
+theorem C11_destroyed_never_reissued (max maxLife maxIdle : Nat) (ops : List Op) :
+    let s := run (C11.fixed max maxLife maxIdle) {} ops
+    ∀ d ∈ s.destroyed, d < s.nextId ∧ (∀ r ∈ s.live, r.id ≠ d) ∧ (∀ p ∈ s.handles, p.2 ≠ d) := by
+  intro s d hd
+  have h := inv_run (C11.fixed max maxLife maxIdle) rfl ops {} (inv_init _)
+  refine ⟨(h.dead d hd).1, (h.dead d hd).2, ?_⟩
+  intro p hp he
+  obtain ⟨r, hr, e1, _⟩ := h.ptr p hp
+  exact (h.dead d hd).2 r hr (by rw [e1, he])
+
+theorem C11.release_of_none (cfg : Cfg) (s : St) (hd : Nat) (h : lookup s.handles hd = none) :
+    step cfg s (.release hd) = s := by
+  simp only [step, h]
+
+/-- **Releasing again has no effect**: the second `Release` of a handle leaves the whole state unchanged -/
+theorem C11_double_release_noop (cfg : Cfg) (hc : cfg.clearOnRelease = true) (s : St) (h : Inv cfg s) (hd : Nat) :
+    step cfg (step cfg s (.release hd)) (.release hd) = step cfg s (.release hd) := by
+  have hgone : lookup (step cfg s (.release hd)).handles hd = none := by
+    have hnot : ∀ hs : List (Nat × Nat), lookup (erase hs hd) hd = none := by
+      intro hs
+      unfold lookup erase
+      have : (hs.filter (·.1 != hd)).find? (·.1 == hd) = none := by
+        apply List.find?_eq_none.mpr
+        intro x hx
+        have := (List.mem_filter.mp hx).2
+        simpa using this
+      rw [this]; rfl
+    simp only [step]
+    split
+    · assumption
+    · rename_i id hl
+      have hmem := lookup_some hl
+      obtain ⟨r, hr, hrid, hrheld⟩ := h.ptr _ hmem
+      simp only at hrid
+      rw [find_live h hr hrid]
+      simp only [hrheld, Bool.not_true, Bool.false_eq_true, ↓reduceIte, hc]
+      split <;> simp [destroy, hnot]
+  exact C11.release_of_none cfg _ hd hgone
+
+/-- the health check destroys every idle connection past its lifetime or idle time -/
+theorem C11_health_destroys_expired (cfg : Cfg) (s : St) (hcl : s.closed = false) (r : Res)
+    (hr : r ∈ s.live) (hidle : r.held = false)
+    (hexp : s.now - r.born > cfg.maxLife ∨ s.now - r.lastUsed > cfg.maxIdle) :
+    r ∉ (step cfg s .health).live ∧ r.id ∈ (step cfg s .health).destroyed := by
+  have hd : isDead cfg s.now r = true := by
+    rcases hexp with h1 | h1 <;> simp [isDead, expired, h1]
+  simp only [step, hcl, Bool.false_eq_true, ↓reduceIte]
+  refine ⟨by simp [hidle, hd], ?_⟩
+  simp only [List.mem_append, List.mem_map, List.mem_filter]
+  exact Or.inl ⟨r, ⟨mem_idle.mpr ⟨hr, hidle⟩, hd⟩, rfl⟩
+
+/-- after the pool is closed and every handle has been released, no connection is live -/
+theorem C11_closed_and_released_is_empty (max maxLife maxIdle : Nat) (ops : List Op)
+    (hcl : (run (C11.fixed max maxLife maxIdle) {} ops).closed = true)
+    (hnone : (run (C11.fixed max maxLife maxIdle) {} ops).handles = [])
+    (hidle : ∀ r ∈ (run (C11.fixed max maxLife maxIdle) {} ops).live, r.held = true) :
+    (run (C11.fixed max maxLife maxIdle) {} ops).live = [] := by
+  have h := inv_run (C11.fixed max maxLife maxIdle) rfl ops {} (inv_init _)
+  generalize run (C11.fixed max maxLife maxIdle) {} ops = s at *
+  cases hl : s.live with
+  | nil => rfl
+  | cons r rest =>
+    obtain ⟨p, hp, _⟩ := h.owned r (by simp [hl]) (hidle r (by simp [hl]))
+    simp [hnone] at hp
+
+/-- close destroys every idle connection at once; the held ones are destroyed by their release -/
+theorem C11_close_keeps_only_held (cfg : Cfg) (s : St) : ∀ r ∈ (step cfg s .close).live, r.held = true := by
+  intro r hr
+  simp [step] at hr
+  exact hr.2
+
+/-! ### the old `Release` (stale pointer kept) -/
+
+def C11.old : Cfg := { max := 1, maxLife := 100, maxIdle := 100, clearOnRelease := false }
+
+/-- with the stale pointer, a second `Release` by the first holder frees the connection the second
+holder is using: a third acquire hands the same connection out — two holders -/
+theorem C11_old_release_refuted :
+    let s := run C11.old {} [.acquire 0 0, .release 0, .acquire 1 0, .release 0, .acquire 2 0]
+    (1, 0) ∈ s.handles ∧ (2, 0) ∈ s.handles := by decide
+
+/-- … and releasing a destroyed connection again reaches the underlying pool in a forbidden state -/
+theorem C11_old_double_destroy_refuted :
+    (run C11.old {} [.acquire 0 0, .fail 0, .release 0, .release 0]).corrupt = true := by decide
+
+/-! ### non-vacuity: the same histories under the repaired `Release` -/
+example : let s := run (C11.fixed 1 100 100) {} [.acquire 0 0, .release 0, .acquire 1 0, .release 0, .acquire 2 0]
+    s.handles = [(1, 0)] ∧ s.corrupt = false := by decide
+example : let s := run (C11.fixed 2 100 100) {} [.acquire 0 0, .fail 0, .release 0, .release 0, .acquire 1 0]
+    s.destroyed = [0] ∧ s.handles = [(1, 1)] ∧ s.corrupt = false := by decide
